@@ -65,8 +65,11 @@ class Greedy:
         self.loop = loops[0]
         self.task = norm(self.loop.target)
         # scratch cluster
-        cps = [a for a in ast.walk(self.fn) if isinstance(a, ast.Assign) and isinstance(a.value, ast.Call) and call_name(a.value) in ("copy", "deepcopy")
-               and a.value.args and norm(a.value.args[0]) == "worker_pools"]
+        def _is_copy(v):
+            if isinstance(v, ast.IfExp):  # deepcopy(...) if preemptive else copy(...)
+                return _is_copy(v.body) and _is_copy(v.orelse)
+            return isinstance(v, ast.Call) and call_name(v) in ("copy", "deepcopy") and bool(v.args) and norm(v.args[0]) == "worker_pools"
+        cps = [a for a in ast.walk(self.fn) if isinstance(a, ast.Assign) and _is_copy(a.value)]
         self.scratch = {norm(a.targets[0]) for a in cps}
         for _ in range(2):
             for a in ast.walk(self.fn):
